@@ -836,7 +836,7 @@ def rule_quote_types(prog, rep, tier, anchor="pure_utils.quote"):
         raise AnalysisError("QUOTE-TYPES: only %d kinds of argument could be followed through %s" % (resolved, anchor))
 
 
-def rule_quote_pair(prog, rep, tier, writer="defaults_utils.set_default_doc", quoter="pure_utils.quote", unquoter="pure_utils.unquote"):
+def rule_quote_pair(prog, rep, tier, writer="defaults_utils.set_default_doc", quoter="pure_utils.quote", unquoter="pure_utils.unquote", node_builder=None):
     """QUOTE-PAIR (C01, C03, C06, C08): what the writer does to a string default when it quotes it, the reader's `unquote` undoes,
     and `unquote` leaves alone what is not a quoted pair.  Run on representatives of the kinds of string a default can be
     (a word, text with an inner double quote, with an apostrophe, with inner blanks, padded with blanks, a lone blank, a line
@@ -928,6 +928,44 @@ def rule_quote_pair(prog, rep, tier, writer="defaults_utils.set_default_doc", qu
             rep.violation(Finding("QUOTE-PAIR", unquoter, "raises:%s:%s" % (_kind_of(s_), x.name), "%s raises %s for %r at `%s`" % (unquoter, x.name, s_, src(x.at, 40)), loc(prog, x.at)))
         except _Unknown as u:
             rep.ob("QUOTE-PAIR", inst, "unresolved", loc(prog, uf.node), "not interpreted: %s" % u.why)
+    # (node-builder clause) the class emitter hands `quote(default)` to the function that builds the Constant node, and relies on it to take
+    # exactly the one layer of quotes back off that `quote` put on: a default that itself begins or ends with a quotation mark (`15"`,
+    # `say "hi"`) keeps its own.  Followed: the statements of the node builder in front of its `return`, on quote(s).
+    try:
+        sv = prog.fn(node_builder) if node_builder else None
+    except AnalysisError:
+        sv = None
+    if sv is not None and sv.params():
+        front = [st for st in sv.node.body if not isinstance(st, ast.Return) and not (isinstance(st, ast.Expr) and isinstance(st.value, ast.Constant))]
+        edge = ['say "hi"', '15"', '"Bob" Smith', "mnist", "it's"]
+        for s_ in edge if front else []:
+            inst = "%s(quote(%r)) holds the string itself" % (node_builder, s_)
+            try:
+                q1 = text_of(run_fn(qf, Text.of(s_)))
+                if q1 is None:
+                    raise _Unknown("quote gives no text")
+                lad = Ladder(prog, folder)
+                pn = sv.params()
+                env = {pn[0]: Text.of(q1)}
+                a = sv.node.args
+                for q, d in dict(zip(pn[len(pn) - len(a.defaults):], a.defaults)).items():
+                    if isinstance(d, ast.Constant):
+                        env[q] = d.value
+                lad.block(front, env)
+                back = text_of(env.get(pn[0]))
+                resolved += 1
+                if back != s_:
+                    rep.violation(Finding(
+                        "QUOTE-PAIR", node_builder, "node-builder-not-one-layer:%s" % ("own-quote-at-an-end" if back is not None and len(back) < len(s_) else "altered"),
+                        "the class emitter writes the string default %r as %s(quote(..)) = %s(%r), which holds %r: the builder takes off more (or less) than the one layer of "
+                        "quotes that quote() put on, so the emitted class holds another value than the IR" % (s_, node_builder, node_builder, q1, back), loc(prog, sv.node)))
+                else:
+                    rep.holds("QUOTE-PAIR", inst, loc(prog, sv.node), "%r -> %r -> %r" % (s_, q1, back))
+            except _Exc as x:
+                resolved += 1
+                rep.violation(Finding("QUOTE-PAIR", node_builder, "raises:%s:%s" % (_kind_of(s_), x.name), "%s raises %s for the quoted default %r at `%s`" % (node_builder, x.name, s_, src(x.at, 40)), loc(prog, x.at)))
+            except (_Unknown, _Return) as u:
+                rep.ob("QUOTE-PAIR", inst, "unresolved", loc(prog, sv.node), "not interpreted: %s" % getattr(u, "why", "return"))
     if resolved < 10:
         raise AnalysisError("QUOTE-PAIR: only %d of the quote / unquote cases could be followed" % resolved)
 
